@@ -20,6 +20,7 @@ import (
 
 	"verif.local/sim/core"
 	"verif.local/sim/gen"
+	"verif.local/sim/gobcanon"
 	"verif.local/sim/simrt"
 	"verif.local/sim/wire"
 )
@@ -155,6 +156,11 @@ func write(e *entry, g *gen.G, t *core.Tape) (msg []byte, desc string) {
 		if r := recover(); r != nil {
 			// an encoder panicking on a generated value is not C04's subject
 			msg, desc = nil, fmt.Sprintf("writer panicked: %v", r)
+			return
+		}
+		if e.codec == "gob" {
+			// encoding/gob writes maps in hash order: canonicalise so that one seed is one byte string
+			msg = gobcanon.Canon(msg)
 		}
 	}()
 	if e.fn.IsValid() {
